@@ -47,6 +47,14 @@ from occurs in the key or in the container expression, or is one of the register
 a parameter from a key (e.g. `on_class` from `_attribute_cache`) breaks this theorem. -/
 theorem memo_keys_cover_parameters : memoKeysCover Gen.scannedMemoKeys = true := memo_keys_cover_parameters_proof
 
+/-- **Interpreter-global state.** The places where pyanalyze reads `sys.modules` / `sys.path` /
+`os.environ` / other `sys` attributes or imports a module are exactly the registered ones (an
+equality, by `decide`): a new read, or an import call that disappears in front of a lookup in
+`sys.modules` (so that the answer depends on what earlier programs of the process imported), breaks
+this theorem. -/
+theorem interpreter_state_reads_registered :
+    interpreterReadsRegistered Gen.scannedInterpreterReads = true := interpreter_state_reads_registered_proof
+
 /-- **Scan obligation for identity keys.** Every expression that uses `id(…)` as (part of) a key, a
 hash or a membership test is registered with the reason why the address still belongs to a live
 object when it is compared. A new address key — e.g. a cache keyed by `id(node)` that does not hold
